@@ -295,6 +295,55 @@ def check(ld, lens, p, via, res):
             pulled += 1
 
 
+class _Boom(Exception):
+    pass
+
+
+def check_error_path(ld, lens, p, where, pos, res):
+    """The source, len_key or sort_key raises for one example: the consumer
+    gets that exception - the iteration never just ends, which would lose the
+    failing example and everything still held in open buckets."""
+    case = {'lens': list(lens), 'params': p, 'raises_in': where, 'raises_at': pos,
+            'error_path': True}
+    res.case(('err', tuple(lens), tuple(p.items()), where, pos), True)
+    examples = [(i, l) for i, l in enumerate(lens)]
+
+    def src_fn(x):
+        if where == 'source' and x[0] == pos:
+            raise _Boom(('source', pos))
+        return x
+
+    def len_key(x):
+        if where == 'len_key' and x[0] == pos:
+            raise _Boom(('len_key', pos))
+        return x[1]
+
+    def sort_key(x):
+        if where == 'sort_key' and x[0] == pos:
+            raise _Boom(('sort_key', pos))
+        return x[1]
+    got = []
+    try:
+        ds = ld.new(examples).map(src_fn).batch_dynamic_time_series_bucket(
+            batch_size=p['bs'], len_key=len_key, max_padding_rate=p['rate'],
+            max_total_size=p['mts'], expiration=p['exp'], max_buffered_examples=p['mb'],
+            # (not for sort_key: a dropped bucket is never sorted)
+            drop_incomplete=(pos % 2 == 1 and where != 'sort_key'),
+            sort_key=(sort_key if where == 'sort_key' or p['sort'] else None))
+        for b in ds:
+            got.append(b)
+    except _Boom:
+        res.count('bucket_error_paths_reported')
+        return
+    except BaseException as e:
+        res.violation('bucket-iteration-raised', case, exc_sig(e),
+                      sig={'mode': 'error-path', 'where': where})
+        return
+    res.violation('conservation', case,
+                  {'iteration_ended_without_error_after_batches': [[x[0] for x in b] for b in got]},
+                  sig={'mode': 'error-path', 'where': where})
+
+
 def check_dual(ld, lens, p, res):
     """Two iterators over ONE bucketing dataset alive at once (the first is
     suspended after some batches, the second runs to its end, the first goes
@@ -386,6 +435,11 @@ def run_shard(spec, res):
             if via != 'class':
                 via += ':' + rng.choice(VIAS)
             check(ld, lens, p, via, res)
+        for _ in range(spec['nrand']):
+            lens = [rng.choice(ALPHABET) for _ in range(rng.choice((1, 3, 6, 12)))]
+            check_error_path(ld, lens, dict(rng.choice(pts)),
+                             rng.choice(('source', 'len_key', 'sort_key')),
+                             rng.randrange(len(lens)), res)
         for _ in range(spec['nrand'] // 2):
             lens = [rng.choice(ALPHABET) for _ in range(rng.choice((6, 12, 20)))]
             p = dict(rng.choice(pts))
@@ -426,4 +480,7 @@ def replay(case, res):
     ld = import_lazy_dataset()
     if case.get('two_iterators'):
         return check_dual(ld, case['lens'], case['params'], res)
+    if case.get('error_path'):
+        return check_error_path(ld, case['lens'], case['params'], case['raises_in'],
+                                case['raises_at'], res)
     check(ld, case['lens'], case['params'], case.get('via', 'class'), res)
